@@ -68,26 +68,27 @@ def gen_case(ctx, big):
     return P, rounds, r.below(1 << 30), see
 
 
-def run_case(exe, P, rounds, seed, see, max_steps=None, nomaster=False):
+def run_case(exe, P, rounds, seed, see, max_steps=None, nomaster=False, boss=0):
     if max_steps is None:
         max_steps = 3000 + 60 * (P + 2) * (sum(len(c) for c in rounds) + 4 * len(rounds)) * see[1] // see[0]
     stdin = "\n".join(" ".join(map(str, c)) if c else "none" for c in rounds) + "\n"
     rc, out, err = pmlib.run_harness(exe, [str(P), str(seed), str(max_steps), str(see[0]), str(see[1])]
-                                     + (["nomaster"] if nomaster else []), stdin, timeout=300)
+                                     + (["nomaster", str(boss)] if nomaster else []), stdin, timeout=300)
     return rc, out, err, stdin
 
 
-def check_output(ctx, P, rounds, seed, see, rc, out, err, stdin, nomaster=False):
+def check_output(ctx, P, rounds, seed, see, rc, out, err, stdin, nomaster=False, boss=0):
     case = dict(P=P, rounds=rounds, sched_seed=seed, see=list(see))
     if nomaster:
         case["nomaster"] = True
+        case["boss"] = boss
     san = pmlib.sanitizer_report(err)
     if rc != 0 or san:
         ctx.problem("sanitizer" if rc != -999 else "hang",
                     "dispatcher harness %s" % (san or ("timed out" if rc == -999 else "exit %d" % rc)),
                     case=case, log=err[-2000:], signature="disp-abort")
         return
-    rc2, dout = pmlib.run_driver("disp", "P %d\n%s%s" % (P, "mode nomaster\n" if nomaster else "", out))
+    rc2, dout = pmlib.run_driver("disp", "P %d\n%s%s" % (P, "mode nomaster %d\n" % boss if nomaster else "", out))
     for l in dout.splitlines():
         if l.startswith("PROPFAIL"):
             ctx.problem("propfail", l, case=case, signature="disp-" + " ".join(l.split()[2:5]))
@@ -107,6 +108,7 @@ def check_output(ctx, P, rounds, seed, see, rc, out, err, stdin, nomaster=False)
     ctx.count("ranks_%d" % P)
     if nomaster:
         ctx.count("dedicated_master_runs")
+        ctx.count("dedicated_master_on_rank_0" if boss == 0 else "dedicated_master_on_other_rank")
     for c in rounds:
         ctx.count("jobs_0" if not c else ("jobs_lt_workers" if len(c) < P else "jobs_ge_workers"))
     if any(rounds) and unseen > 0:
@@ -142,7 +144,7 @@ def correspondence(ctx):
     for P in (2, 3, 4):
         for J in (0, 1, 2, 4):
             for see in ((1, 1), (1, 3)):
-                dcases.append((P, [list(range(J)), list(range(J - 1, -1, -1))], P * 131 + J * 17 + see[1], see))
+                dcases.append((P, [list(range(J)), list(range(J - 1, -1, -1))], P * 131 + J * 17 + see[1], see, (J + see[1]) % P))
     for _ in range(30 if not big else 600):
         P = r.choice([2, 2, 3, 3, 4, 5] if not big else [2, 3, 4, 5, 8, 16])
         rounds = []
@@ -151,11 +153,11 @@ def correspondence(ctx):
             ids = list(range(J)) if r.chance(1, 2) else [3 * j + 1 for j in range(J)]      # job ids need not be 0..J-1
             r.shuffle(ids)
             rounds.append(ids)
-        dcases.append((P, rounds, r.below(1 << 30), r.choice([(1, 1), (3, 4), (1, 2), (1, 5)])))
-    for (P, rounds, seed, see) in dcases:
-        rc, out, err, stdin = run_case(exe, P, rounds, seed, see, nomaster=True)
+        dcases.append((P, rounds, r.below(1 << 30), r.choice([(1, 1), (3, 4), (1, 2), (1, 5)]), r.choice([0, r.below(P), P - 1])))
+    for (P, rounds, seed, see, boss) in dcases:
+        rc, out, err, stdin = run_case(exe, P, rounds, seed, see, nomaster=True, boss=boss)
         ctx.evaluations += 1
-        check_output(ctx, P, rounds, seed, see, rc, out, err, stdin, nomaster=True)
+        check_output(ctx, P, rounds, seed, see, rc, out, err, stdin, nomaster=True, boss=boss)
         if sum(1 for p in ctx.problems if p["kind"] in ("propfail", "hang", "sanitizer")) >= 3:
             break
     real_mpi(ctx, big)
@@ -242,8 +244,8 @@ def replay(ctx, rp):
         return 1 if rc != 0 else 0
     exe = harness()
     nm = bool(c.get("nomaster"))
-    rc, out, err, stdin = run_case(exe, c["P"], c["rounds"], c["sched_seed"], tuple(c["see"]), nomaster=nm)
+    rc, out, err, stdin = run_case(exe, c["P"], c["rounds"], c["sched_seed"], tuple(c["see"]), nomaster=nm, boss=c.get("boss", 0))
     print(out[-3000:])
-    rc2, dout = pmlib.run_driver("disp", "P %d\n%s%s" % (c["P"], "mode nomaster\n" if nm else "", out))
+    rc2, dout = pmlib.run_driver("disp", "P %d\n%s%s" % (c["P"], "mode nomaster %d\n" % c.get("boss", 0) if nm else "", out))
     print(dout)
     return 1 if ("PROPFAIL" in dout or "MISMATCH" in dout or rc != 0) else 0
